@@ -132,14 +132,24 @@ func zcnOps() []OpDef {
 				mut = "address-respelled"
 			}
 			in := map[string]interface{}{"ethereum_address": addr}
-			if r.Chance(h.Vars["hostile"].(float64) * 0.3) {
+			pNoAddr := h.Vars["hostile"].(float64) * 0.3
+			if h.Focus == "C19" && pNoAddr < 0.15 {
+				pNoAddr = 0.15
+			}
+			if r.Chance(pNoAddr) {
 				in["ethereum_address"] = []string{"", "", " "}[r.Intn(3)]
 				mut = "no-address"
 				if in["ethereum_address"] != "" {
 					mut = "blank-address"
+				} else if r.Chance(0.6) {
+					// no target address because the payload does not carry the key at all (or carries null): whatever an
+					// earlier burn's payload held must not be picked up
+					in = []map[string]interface{}{{}, {"nonce": 7}, {"ethereum_address": nil}, {"ethereum_addres": addr}, {"amount": 5, "hash": "x"}}[r.Intn(5)]
+					mut = "address-key-absent"
 				}
 			}
-			return &Call{Name: "zcn.burn", Mut: mut, Meta: map[string]interface{}{"eth": in["ethereum_address"]}, Spec: world.TxnSpec{From: from, To: sc, Value: Coin(v), Fee: Coin(h.fee(r) % 1000), Type: T, Func: "burn", Input: in}}
+			ethMeta, _ := in["ethereum_address"].(string)
+			return &Call{Name: "zcn.burn", Mut: mut, Meta: map[string]interface{}{"eth": ethMeta}, Spec: world.TxnSpec{From: from, To: sc, Value: Coin(v), Fee: Coin(h.fee(r) % 1000), Type: T, Func: "burn", Input: in}}
 		}},
 		{Name: "zcn.mint", Tags: []string{"zcn", "C18"}, Build: func(h *Hist, r *mon.Rand) *Call { return zcBuildMint(h, r, "") }},
 		{Name: "zcn.stake", Tags: []string{"zcn", "stake", "C11"}, Build: func(h *Hist, r *mon.Rand) *Call {
@@ -1194,10 +1204,16 @@ func zbScenarioC19(h *Hist, mons []Monitor) {
 				}
 			}
 			mut := ""
-			if r.Chance(0.1) {
+			if r.Chance(0.15) {
 				addr, mut = "", "no-address"
 			}
 			in := map[string]interface{}{"ethereum_address": addr}
+			if mut == "no-address" && r.Chance(0.6) {
+				// the payload does not carry the key at all (or carries null / a misspelt key): nothing an earlier burn's payload
+				// held may be picked up
+				in = []map[string]interface{}{{}, {"nonce": 7}, {"ethereum_address": nil}, {"ethereum_addres": z.EthAddrs[0]}, {"amount": 5, "hash": "x"}}[r.Intn(5)]
+				mut = "address-key-absent"
+			}
 			submit(&Call{Name: "zcn.burn", Mut: mut, Meta: map[string]interface{}{"eth": addr, "c19_directed": true},
 				Spec: world.TxnSpec{From: from, To: zcnsc.ADDRESS, Value: Coin(v), Fee: Coin(h.fee(r) % 1000), Type: transaction.TxnTypeSmartContract, Func: "burn", Input: in}})
 		}
